@@ -48,10 +48,12 @@ type EncSum struct {
 }
 
 type summaryCache struct {
-	lens  map[*types.Func]*LenSum
-	encs  map[*types.Func]*EncSum
-	busy  map[*types.Func]bool
-	funcs map[string]*FuncSummary
+	lens    map[*types.Func]*LenSum
+	encs    map[*types.Func]*EncSum
+	busy    map[*types.Func]bool
+	funcs   map[string]*FuncSummary
+	ensures map[*types.Func][]Fact
+	ensBusy map[*types.Func]bool
 }
 
 func (w *World) cache() *summaryCache {
@@ -456,6 +458,31 @@ func (in *Interp) unmarshalCall(st *State, f *types.Func, recv Val, args []Val, 
 		}
 	}
 	in.DecCalls = append(in.DecCalls, &DecCall{Recv: recv, Path: path, Type: typ, Pos: call.Pos(), Guard: in.guard(), Callee: f})
+	// what the child guarantees when it returns nil, instantiated for this receiver and view
+	if path != "?" && len(args) == 1 {
+		if bv, ok := args[0].(BufV); ok {
+			vl := in.viewLen(st, bv)
+			var inst []Fact
+			for _, e := range in.w.Ensures(f) {
+				sub := func(t *Term) *Term {
+					t = t.Reroot(path)
+					return t.Map(func(a *Atom) *Term {
+						if a.Kind == "len" && a.Path == "P" {
+							return vl
+						}
+						return nil
+					})
+				}
+				inst = append(inst, Fact{L: sub(e.L), R: sub(e.R), Src: "success of " + typ + ".UnmarshalBinary (" + e.Src + ")"})
+			}
+			if len(inst) > 0 {
+				if st.ensures == nil {
+					st.ensures = map[string][]Fact{}
+				}
+				st.ensures["err:dec("+path+")"] = inst
+			}
+		}
+	}
 	// after a decode, fields of the receiver object are whatever was on the wire
 	if path != "?" {
 		prefix := path + "."
@@ -502,4 +529,93 @@ func (w *World) ExpandLens(t *Term, depth int) *Term {
 		}
 		return w.ExpandLens(ls.Term.Reroot(a.Path), depth+1)
 	})
+}
+
+// Ensures returns the facts a decoder guarantees on every successful return,
+// expressed over len(P) and the receiver's fields ("$" paths): the guards it
+// passed, with wire atoms replaced by the fields they were stored into.
+func (w *World) Ensures(f *types.Func) []Fact {
+	c := w.cache()
+	if c.ensures == nil {
+		c.ensures = map[*types.Func][]Fact{}
+		c.ensBusy = map[*types.Func]bool{}
+	}
+	if e, ok := c.ensures[f]; ok {
+		return e
+	}
+	fi := w.FuncOf(f)
+	if fi == nil || c.ensBusy[f] || fi.Decl.Name.Name != "UnmarshalBinary" {
+		return nil
+	}
+	c.ensBusy[f] = true
+	defer delete(c.ensBusy, f)
+	fs := w.Interpret(fi, "decode")
+	var out []Fact
+	first := true
+	for _, r := range fs.Rets {
+		if r.IsErr || r.St == nil {
+			continue
+		}
+		// inverse map: wire atom -> receiver field holding it at this return
+		inv := map[string]string{}
+		for p, v := range r.St.fields {
+			if !strings.HasPrefix(p, "$.") {
+				continue
+			}
+			if iv, ok := v.(IntV); ok {
+				if a := iv.T.SingleAtom(); a != nil && a.Kind == "val" && strings.HasPrefix(a.Path, "P[") {
+					if old, dup := inv[a.Key()]; !dup || p < old {
+						inv[a.Key()] = p
+					}
+				}
+			}
+		}
+		var cand []Fact
+		for _, ft := range r.St.facts {
+			if ft.Cond != "" || badHyps[ft.Src] {
+				continue
+			}
+			rw := func(t *Term) *Term {
+				return t.Map(func(a *Atom) *Term {
+					if p, ok := inv[a.Key()]; ok {
+						return ValOf(p)
+					}
+					return nil
+				})
+			}
+			nf := Fact{L: rw(ft.L), R: rw(ft.R), Src: ft.Src}
+			clean := func(t *Term) bool {
+				return !t.HasAtom(func(a *Atom) bool {
+					switch a.Kind {
+					case "len":
+						return a.Path != "P" && !strings.HasPrefix(a.Path, "$")
+					case "val", "Len":
+						return !strings.HasPrefix(a.Path, "$")
+					case "opq":
+						return true
+					}
+					return false
+				})
+			}
+			if clean(nf.L) && clean(nf.R) && (nf.L.HasAtom(func(a *Atom) bool { return a.Kind == "len" && a.Path == "P" }) || nf.R.HasAtom(func(a *Atom) bool { return a.Kind == "len" && a.Path == "P" })) {
+				cand = append(cand, nf)
+			}
+		}
+		if first {
+			out, first = cand, false
+			continue
+		}
+		var keep []Fact
+		for _, o := range out {
+			for _, cnd := range cand {
+				if o.equal(cnd) {
+					keep = append(keep, o)
+					break
+				}
+			}
+		}
+		out = keep
+	}
+	c.ensures[f] = out
+	return out
 }
